@@ -36,6 +36,7 @@ def run(ctx):
                      timeout=1800)
     ctx.add_family(agg)
     strict_compile(ctx, badp)
+    empty_and_crlf(ctx, badp)
     file_history(ctx)
     for f in ctx.known():
         ctx.witness(f)
@@ -161,3 +162,62 @@ def file_history(ctx):
                         return
     finally:
         shutil.rmtree(d, ignore_errors=True)
+
+
+def empty_and_crlf(ctx, progs):
+    """(a) empty expressions are invalid expressions too: strict fails when the template is compiled, non-strict when the
+    rendering reaches them -- with the same ExpressionError (token, offset, location);
+    (b) templates with CRLF line ends: both modes report the same location (that of the text after normalisation)"""
+    sys.path.insert(0, REPO_SRC)
+    from chameleon import PageTemplate
+    from chameleon.exc import ExpressionError
+
+    def err(src, strict, **kw):
+        try:
+            t = PageTemplate(src, strict=strict)
+        except ExpressionError as e:
+            return ("compile", str(e.token), e.offset, tuple(e.location))
+        except Exception as e:   # noqa
+            return ("compile-other", type(e).__name__, None, None)
+        try:
+            t(**kw)
+        except ExpressionError as e:
+            return ("render", str(e.token), e.offset, tuple(e.location))
+        except Exception as e:   # noqa
+            return ("render-other", type(e).__name__, None, None)
+        return ("ok", None, None, None)
+    empties = ['<p tal:content="">x</p>', '<p tal:replace="">x</p>', '<p\n tal:define="x ">x</p>', '<p tal:condition="not:">x</p>',
+               '<p>t\n ${python:}</p>',
+               '<p tal:on-error="">${1/0}</p>']
+    for src in empties:
+        for eol in ("\n", "\r\n"):
+            s2 = src.replace("\n", eol)
+            a, b = err(s2, True), err(s2, False)
+            ctx.replays += 2
+            if a[0] != "compile" or b[0] != "render" or a[1:] != b[1:]:
+                ctx.violation("empty expression in %r: strict gives %s, non-strict gives %s; expected the same ExpressionError, when "
+                              "compiling resp. when rendering" % (s2, a, b), dict(kind="strict-empty", source=s2))
+                return
+    # (b) planted invalid expressions in CRLF templates
+    n = 0
+    for p in progs[::4]:
+        c = C.concretize(p, 0)
+        src = c.source.replace("\n", "\r\n")
+        a = err(src, True)
+        if a[0] != "compile":
+            continue
+        # the non-strict template raises the same error if the rendering reaches the expression; find it by trying
+        try:
+            t = PageTemplate(src, strict=False)
+        except Exception as e:   # noqa
+            ctx.violation("non-strict compilation of a CRLF template failed: %s\n  template: %r" % (type(e).__name__, src), dict(kind="strict-crlf", source=src))
+            return
+        n += 1
+        norm = src.replace("\r\n", "\n")
+        line, col = norm.count("\n", 0, a[2]) + 1, a[2] - (norm.rfind("\n", 0, a[2]) + 1)
+        if a[3] != (line, col) or norm[a[2]:a[2] + len(a[1])] != a[1]:
+            ctx.violation("strict compilation of a CRLF template reports %r at offset %s, location %s; in the normalised text that "
+                          "offset is line %d column %d (%r)\n  template: %r" % (a[1], a[2], a[3], line, col, norm[a[2]:a[2] + len(a[1])], src),
+                          dict(kind="strict-crlf", source=src))
+            return
+    ctx.replays += n
